@@ -21,6 +21,7 @@ def main():
     fd, xml = tempfile.mkstemp(suffix=".xml"); os.close(fd)
     env = dict(os.environ)
     env.pop("TANGELO_VERIF", None)
+    env.setdefault("OMP_NUM_THREADS", "2")
     cmd = ["/venv/bin/python", "-m", "pytest", "-q", "-p", "no:cacheprovider", "--timeout=900",
            "--continue-on-collection-errors", "-n", n, f"--junitxml={xml}"] + args
     env["PYTHONPATH"] = repo
